@@ -33,12 +33,16 @@ def _mesa():
 
 def to_units(v):
     f = float(v) * U
+    if not math.isfinite(f):
+        return "inexact:" + repr(float(v))
     i = int(round(f))
     return str(i) if f == i else "inexact:" + float(v).hex()
 
 
 def sq_units(d):
     d = float(d)
+    if not math.isfinite(d) or abs(d) > 2.0**40:
+        return "inexact:" + repr(d)
     n = int(round((d * U) ** 2))
     for c in (n, n - 1, n + 1):
         if c >= 0 and math.sqrt(c) / U == d:
@@ -169,7 +173,12 @@ class ExpImpl:
         return v if self.lists else self.np.array(v)
 
     def pairs(self, agents, dists):
-        return [(self.ids[a], int(sq_units(d))) for a, d in zip(agents, dists, strict=True)]
+        return [(self.ids[a], self.d2(d)) for a, d in zip(agents, dists, strict=True)]
+
+    @staticmethod
+    def d2(d):
+        v = sq_units(d)
+        return int(v) if v.isdigit() else v
 
     @staticmethod
     def fmt_pairs(ps, sort=True):
@@ -209,7 +218,7 @@ class ExpImpl:
             if k == "knn":
                 p = self.pt(w[1:1 + nd])
                 ags, ds = sp.get_k_nearest_agents(p, int(w[1 + nd]))
-                all_d2 = [int(sq_units(d)) for d in sp.calculate_distances(self.pt(w[1:1 + nd]))[0]]
+                all_d2 = [self.d2(d) for d in sp.calculate_distances(self.pt(w[1:1 + nd]))[0]]
                 return "ok res=" + fmt_knn(knn_canon(all_d2, self.pairs(ags, ds))[1])
             if k == "nir":
                 ags, ds = self.agents[int(w[1])].get_neighbors_in_radius(int(w[2]) / U)
@@ -219,7 +228,7 @@ class ExpImpl:
                 kk = int(w[2])
                 ags, ds = me.get_nearest_neighbors(kk)
                 res = self.pairs(ags, ds)
-                all_d2 = [int(sq_units(d)) for d in sp.calculate_distances(me.position.copy())[0]]
+                all_d2 = [self.d2(d) for d in sp.calculate_distances(me.position.copy())[0]]
                 # the (k+1)-nearest answer the method filtered `me` out of
                 zeros = sum(1 for d in all_d2 if d == 0)
                 if zeros > kk + 1:
